@@ -29,6 +29,14 @@ SEEDS = {
     'C16c': ('C16', ['C16'], '_modify_record stores the new record before the size expirer computes the size delta', 'size limit; a tracked file reported again with a different size'),
     'C19c': ('C19', ['C19', 'C05'], 'rf_write counts len() of the caller array instead of the cast array', 'complex writer, 1 sub-channel, flat interleaved real input of 2N values'),
     'C20c': ('C20', ['C20', 'C12'], 'metadata writer keeps the last file open and unflushed between write() calls', 'reader in another process than the writer'),
+    'C03d': ('C03', ['C03'], 'python get_unix_time: microsecond = int(picosecond / 1e12 * 1000000) (two float roundings)', 'a sample exactly on certain microsecond boundaries (about 1% of them)'),
+    'C04d': ('C04', ['C04'], 'subdirectory grid restarts at each UTC midnight (sample_sec - (sample_sec % 86400) % cadence)', 'subdir_cadence_secs that does not divide 86400'),
+    'C07d': ('C07', ['C07'], 'H5Pset_fill_value is given a native integer type although the buffer holds the byte-swapped pattern', 'continuous mode, real signed >i2/>i4/>i8, an unwritten slot'),
+    'C11d': ('C11', ['C11', 'C08', 'C01'], '_combine_blocks no longer sorts the blocks collected from several top-level directories', 'same channel in >= 2 top-level directories whose order differs from time order, one read spanning both'),
+    'C13d': ('C13', ['C13'], 'metadata reader: inclusive last second used as the exclusive stop of np.arange (last file of a subdirectory not listed)', 'file cadence 1 s; sample in the last second of a subdirectory'),
+    'C15d': ('C15', ['C15'], "end anchor moved from the RE_* strings into the compiled listing patterns: the watcher's full-path patterns lose it", 'a path with extra characters after .h5'),
+    'C17d': ('C17', ['C17'], 'mirror decides "destination is current" by size and mtime instead of content', 'pre-existing destination file of the same size, not older, different content'),
+    'C18d': ('C18', ['C18'], 'cp/mv/ln forward include_drf_properties as include_dmd_properties to the listing', 'one of the properties flags given and a metadata channel in the tree'),
     'C02': ('C02', ['C02', 'C09'], 'existence check of the finished name skipped when the subdirectory was "just created" (in effect always)',
             'a second session writing into a period whose finalized file exists'),
     'C02b': ('C02', ['C02'], 'a failed exclusive create on an existing tmp name no longer marks the writer failed: close publishes the stale tmp file',
